@@ -10,6 +10,8 @@ using namespace vf;
 
 static Fields gen(Tape &t) {
   Fields f;
+  LongMode lm(t);
+  if (lm.on()) f.seti("long", 1);
   int src = t.weighted({4, 4, 3});
   f.seti("src", src);
   if (src == 1) {
